@@ -21,6 +21,10 @@ A term is a nested tuple:
   ("unknown", text)
 """
 
+import re
+
+_PROMOTED_RE = re.compile(r"promoted\[(\d+)\]$")
+
 COMMUTATIVE = {"Add", "Mul", "BitAnd", "BitOr", "BitXor", "Eq", "Ne", "min", "max", "And", "Or"}
 ASSOCIATIVE = {"Add", "Mul", "BitAnd", "BitOr", "BitXor", "min", "max", "And", "Or"}
 
@@ -566,6 +570,14 @@ class TermBuilder:
                 return ("fnref", fnj.get("resolved") or fnj["def"])
             s = o.j["s"]
             ty = o.j["ty"]
+            m = _PROMOTED_RE.search(s)
+            if m and self.depth < 4:
+                i = int(m.group(1))
+                if i < len(self.fn.promoted):
+                    tb = TermBuilder(self.fn.promoted[i], self.prog, depth=self.depth + 1)
+                    r = tb.return_term()
+                    _closure_hook[0] = self._apply_closure_hook
+                    return r
             # named constants of the crate: `const filters::cuckoofilter::MAX_NUM_KICKS`
             nm = s[6:] if s.startswith("const ") else s
             cv = self.prog.const_value(nm) if self.prog is not None else None
